@@ -96,6 +96,7 @@ func main() {
 	case "structscan":
 		printStructFindings("global state (soyhtml, soyjs, soymsg, data, template, ast, parsepasses, root):", p.globalStateScan([]string{"/soyhtml", "/soyjs", "/soymsg", "/data", "/template", "/ast", "/parsepasses", ""}))
 		printStructFindings("recover sites:", p.recoverSiteScan([]string{"/soyhtml", "/soyjs", "/parse", "/parsepasses", "/data", ""}))
+		printStructFindings("recursion (functions on call-graph cycles), all packages:", p.stackCoverScan([]string{"/parse", "/soyhtml", "/soyjs", "/soymsg", "/soymsg/pomsg", "/data", "/template", "/ast", "/parsepasses", ""}))
 	case "keys":
 		for _, a := range fs.Args() {
 			debugKeys(p, a)
